@@ -1,4 +1,4 @@
-import Model.DumpPareto
+import Model.TableSpec
 import Proofs.Pareto
 
 /-! Helper lemmas for C04 (and the shared part of C06).  Core Lean only. -/
@@ -6,11 +6,6 @@ import Proofs.Pareto
 namespace DH.Dump
 
 /-! ### vocabulary of the statements -/
-
-/-- `num_objective` is undecided or 1: a scalar/failure is written to the single `objective` column -/
-def le1 : Option Nat → Bool
-  | none => true
-  | some n => decide (n ≤ 1)
 
 /-- the arity a fresh evaluator infers from a list of finished jobs -/
 def arity (J : List JobRec) : Option Nat := inferNumObjective none J
@@ -550,25 +545,6 @@ theorem final_flush (ops : List (List JobRec × Bool)) (hsup : AllSupported (all
 
 /-! ### what a cell contains -/
 
-/-- The property's reading of a cell: column `c` of the line of job `j` when the table's arity
-is `n` (`none` = the cell is empty). -/
-def specCell (n : Option Nat) (j : JobRec) : Col → Option Val
-  | .param k => dget j.args k
-  | .jobId => some (Val.num j.id)
-  | .jobStatus => some (Val.str j.status.name)
-  | .mdata k => dget (visibleMeta j.md) k
-  | .objective =>
-    match j.objective with
-    | .list _ => none
-    | o => if le1 n then some o else none
-  | .objectiveI i =>
-    match j.objective with
-    | .list l => l[i]?
-    | o =>
-      match n with
-      | some m => if m > 1 ∧ i < m then some o else none
-      | none => none
-
 theorem rget_params_eq (args : Dict) (k : String) :
     rget (args.map (fun kv => (Col.param kv.1, kv.2))) (Col.param k) = dget args k := by
   induction args with
@@ -723,11 +699,6 @@ theorem rget_resultOf_spec (n : Option Nat) (j : JobRec) (c : Col) :
     | objectiveI i => simp [isObjCol] at hc'
 
 /-! ### the header -/
-
-/-- the objective columns of a table of arity `n` -/
-def objColsOf : Option Nat → List Col
-  | some m => if m > 1 then (List.range m).map Col.objectiveI else [Col.objective]
-  | none => [Col.objective]
 
 theorem headerOf_eq (n : Option Nat) (j : JobRec) :
     headerOf n j = j.args.map (fun kv => Col.param kv.1)
